@@ -199,9 +199,10 @@ pub fn run_threads(out_prefix: &str, shards: usize, seed: u64, scale: usize) -> 
     let mut out = Out::create(out_prefix, shards);
     let mut rg = gen::rng(seed, 0x7412_0001);
     let (mut nctx, mut nev) = (0usize, 0usize);
-    for i in 0..(6 * scale) {
-        let pats = if i % 2 == 0 { gen::random_pats(&mut rg, 8, 6) } else { calls::prefilter_lists(&mut rg, i) };
-        let mk = MKS[i % 3];
+    for i in 0..(10 * scale) {
+        // odd contexts: prefilter-carrying lists; 7 and 9 get the nested packed-friendly variants (6, 7)
+        let pats = if i % 2 == 0 { gen::random_pats(&mut rg, 8, 6) } else { calls::prefilter_lists(&mut rg, [1usize, 4, 2, 6, 7][(i / 2) % 5]) };
+        let mk = if i >= 7 && i % 2 == 1 { ["lf", "ll"][(i / 2) % 2] } else { MKS[i % 3] };
         let mut c = Ctx::new(&pats, mk, ["top-auto", "top-nc", "top-c", "top-dfa"][i % 4]);
         c.pre = true;
         c.ci = i % 5 == 4;
@@ -276,6 +277,40 @@ pub fn run_threads(out_prefix: &str, shards: usize, seed: u64, scale: usize) -> 
                     "calls":[["find", false, false, "ok", om2v(&m), round],["iter", false, false, "ok", it, round],
                              ["is_match", false, false, "ok", im, round]]}));
                 nev += 3;
+            }
+        }
+        // saturation: many searches that confirm one pattern, then a search where another pattern
+        // (one that contains it) must win - on short haystacks (the slow path of the packed
+        // searchers) and long ones; adaptive heuristics must not change what is reported
+        {
+            let mut pairs = 0;
+            'outer: for p in pats.iter() {
+                for q in pats.iter() {
+                    if !p.is_empty() && q.len() > p.len() && q[..p.len()] == p[..] {
+                        let filler = *[b'!', b'~', 0x01].iter().find(|b| !pats.iter().any(|x| x.contains(b))).unwrap_or(&b'!');
+                        let mut short = p.clone();
+                        short.push(filler);
+                        let mut long = vec![filler; 40];
+                        long.extend_from_slice(p);
+                        long.push(filler);
+                        for round in 0..40 {
+                            let h = if round % 4 == 3 { &long } else { &short };
+                            let m = ac.find(h);
+                            out.put(i, &json!({"ev":"multi","c":cl,"hay":h,"s":0,"e":h.len(),"thread":-3,
+                                "calls":[["find", false, false, "ok", om2v(&m), round]]}));
+                            nev += 1;
+                        }
+                        for h in [q.clone(), { let mut v = vec![filler; 40]; v.extend_from_slice(q); v }] {
+                            let m = ac.find(&h);
+                            let it: Vec<Value> = ac.find_iter(&h).map(|m| m2v(&m)).collect();
+                            out.put(i, &json!({"ev":"multi","c":cl,"hay":h,"s":0,"e":h.len(),"thread":-3,
+                                "calls":[["find", false, false, "ok", om2v(&m), 0],["iter", false, false, "ok", it, 0]]}));
+                            nev += 2;
+                        }
+                        pairs += 1;
+                        if pairs >= 2 { break 'outer; }
+                    }
+                }
             }
         }
         // sequential histories: the same calls in another order and interleaved with
